@@ -39,6 +39,10 @@ Definition spec_scan (tg : list change) (h : list call) : list tset :=
 (* ---------- the quantifier's restrictions, decidable ---------- *)
 Definition disjointb (ch : change) : bool := forallb (fun x => negb (smem x (snd ch))) (fst ch).
 
+(* every tags(new, gone) call of the history has disjoint sets *)
+Definition disj_hist (h : list call) : bool :=
+  forallb (fun op => match op with Tags ch => disjointb ch | _ => true end) h.
+
 (* tests are not nested *)
 Fixpoint nn_from (in_test : bool) (h : list call) : bool :=
   match h with
@@ -112,12 +116,18 @@ Fixpoint forall2b {A B} (p : A -> B -> bool) (l : list A) (m : list B) : bool :=
   | _, _ => false
   end.
 
+(* the histories the first sentence speaks about: tests not nested, every tags() call - of the history
+   and of the Taggers that are part of the reporter - with disjoint new/gone sets.  What a tags() call
+   with overlapping sets does is left open by the statement (implementations may let either side win). *)
+Definition wf_cur (i : input) : bool :=
+  nn_from false (hist i) && disj_hist (hist i) && forallb disjointb (chain (stack i)).
+
 Definition wf_obs (i : input) : bool :=
   wf_from false false (hist i) && forallb disjointb (chain (stack i)).
 
 (* ---------- the statement ---------- *)
 Definition current_okb (i : input) (o : obs) : bool :=
-  implb (nn_from false (hist i)) (lseteqb (o_reporter o) (spec_scan (chain (stack i)) (hist i))).
+  implb (wf_cur i) (lseteqb (o_reporter o) (spec_scan (chain (stack i)) (hist i))).
 
 Definition observed_okb (i : input) (o : obs) : bool :=
   implb (wf_obs i)
@@ -130,7 +140,7 @@ Definition spec_okb (i : input) (o : obs) : bool := current_okb i o && observed_
 Definition Spec (i : input) (o : obs) : Prop :=
   (* current_tags always equals the tags added minus the tags removed since startTestRun, changes made
      between startTest and stopTest being discarded at stopTest *)
-  (nn_from false (hist i) = true ->
+  (wf_cur i = true ->
      Forall2 seteq (o_reporter o) (spec_scan (chain (stack i)) (hist i)))
   /\
   (* what a wrapped result / stream consumer observes for a test = the reporter's current_tags at
